@@ -880,6 +880,88 @@ func runRows(e *core.Env, prop string) error {
 			e.Add(c)
 		}
 	}
+	if prop == "C12" {
+		// filters on INDEXED address inputs (the common "transfers to X" declaration), with the earlier indexed
+		// input selected or not: whatever topic restriction is sent with eth_getLogs must admit every log
+		// the declared filters keep (the source applies it position by position)
+		x, y := r.Bytes(20), r.Bytes(20)
+		pad := func(a []byte) []byte { return append(make([]byte, 12), a...) }
+		for vi := 0; vi < 16; vi++ {
+			selFrom, filterOnFrom, aggAnd, two := vi&1 == 1, vi&2 == 2, vi&4 == 4, vi&8 == 8
+			from := dig.Input{Name: "from", Type: "address", Indexed: true}
+			to := dig.Input{Name: "to", Type: "address", Indexed: true, Column: "t"}
+			val := dig.Input{Name: "value", Type: "uint256", Column: "v"}
+			cols := []wpg.Column{{Name: "t", Type: "bytea"}, {Name: "v", Type: "numeric"}}
+			if selFrom {
+				from.Column = "f"
+				cols = append(cols, wpg.Column{Name: "f", Type: "bytea"})
+			}
+			args := []string{"0x" + hex.EncodeToString(x)}
+			if two {
+				args = append(args, "0x"+hex.EncodeToString(r.Bytes(20)))
+			}
+			flt := dig.Filter{Op: core.Pick(r, []string{"contains", "eq"}), Arg: args}
+			if filterOnFrom && selFrom {
+				from.Filter = flt
+			} else {
+				to.Filter = flt
+			}
+			ev := dig.Event{Name: "Transfer", Type: "event", Inputs: []dig.Input{from, to, val}}
+			agg := "or"
+			if aggAnd {
+				agg = "and"
+			}
+			ig, _, err := buildIG("igx", "tx1", nil, &ev, cols, agg, nil)
+			if err != nil {
+				e.Add(core.Case{Impl: "config-rejected: " + err.Error(), Spec: "accepted", Key: fmt.Sprintf("c12-indexed-cfg %d", vi), Tags: []string{"config-rejected"}})
+				continue
+			}
+			fl := ig.Filter()
+			restr := fl.Topics()
+			// two logs: the filtered position carries X (kept), the other position carries Y
+			fromW, toW := pad(y), pad(x)
+			if filterOnFrom && selFrom {
+				fromW, toW = pad(x), pad(y)
+			}
+			lg := eth.Log{Idx: 1, Address: r.Bytes(20), Data: append(make([]byte, 31), 7)}
+			for _, t := range [][]byte{ev.SignatureHash(), fromW, toW} {
+				lg.Topics = append(lg.Topics, t)
+			}
+			blk, _ := makeItem(r)
+			blk.Txs[0].Logs = eth.Logs{lg}
+			fc := &fakeConn{}
+			var mu sync.Mutex
+			kept := core.Protect(func() string {
+				if _, err := ig.Insert(e2eCtx("src1", 7), &mu, fc, []eth.Block{blk}); err != nil {
+					return "err"
+				}
+				if len(fc.copies) == 1 && len(fc.copies[0].Rows) == 1 {
+					return "kept"
+				}
+				return "dropped"
+			})
+			verdict := "ok"
+			if kept == "kept" {
+				for i, alts := range restr {
+					if len(alts) == 0 {
+						continue
+					}
+					in := false
+					if i < len(lg.Topics) {
+						for _, a := range alts {
+							in = in || strings.EqualFold(strings.TrimPrefix(a, "0x"), hex.EncodeToString(lg.Topics[i]))
+						}
+					}
+					if !in {
+						verdict = fmt.Sprintf("the filters keep the log (topics %x) but eth_getLogs is restricted at topic %d to %v", lg.Topics, i, alts)
+					}
+				}
+			}
+			e.Add(core.Case{Impl: kept, Spec: "kept", Key: fmt.Sprintf("c12-indexed-kept %d", vi), Nontrivial: true, Tags: []string{"indexed-address-filter"}})
+			e.Add(core.Case{Impl: verdict, Spec: "ok", Key: fmt.Sprintf("c12-indexed-topics %d", vi), Nontrivial: true, Tags: []string{"indexed-address-filter", "topics-pushdown-oracle"},
+				Detail: map[string]any{"event": ev, "agg": agg, "restriction": restr}})
+		}
+	}
 	{
 		// integrations of one source share one caching client (C11: the stored values, C12: no log the
 		// filters keep is lost on the way, C13: a matching log yields its row)
